@@ -15,3 +15,30 @@ package mkarray
 //@   ensures imp(result1 && i1 > i2, len(result) == i1 - i2 + 1 && forall(k, 0, len(result), result[k] == i1 - k))
 //@   ensures imp(result1 && i1 == i2, len(result) == 1 && result[0] == i1)
 
+
+// [m..n] as strings (the `a`/`ja` path): every integer from i1 to i2 inclusive, in order; plain decimal
+// unless the first bound (ascending) / the second bound (descending) is written with a leading zero,
+// in which case every element is formatted with "%0<w>d", w = the width of that bound.
+//@ func rangeToArrayString [C18]
+//@   check none
+//@   loop 1 invariant len(aǂ1) == i2ǂ1 - i1ǂ1 + 1 && forall(k, 0, $idx+1, aǂ1[k] == $itoa(i1ǂ1 + k))
+//@   loop 2 invariant len(aǂ1) == i2ǂ1 - i1ǂ1 + 1 && forall(k, 0, $idx+1, aǂ1[k] == $sprintf1(sǂ1, any(i1ǂ1 + k)))
+//@   loop 3 invariant len(aǂ2) == i1ǂ1 - i2ǂ1 + 1 && forall(k, 0, $idx+1, aǂ2[k] == $itoa(i1ǂ1 - k))
+//@   loop 4 invariant len(aǂ2) == i1ǂ1 - i2ǂ1 + 1 && forall(k, 0, $idx+1, aǂ2[k] == $sprintf1(sǂ2, any(i1ǂ1 - k)))
+//@   at return #3 assert e1 == nil && e2 == nil && i1ǂ1 < i2ǂ1 && result1 == nil && len(result) == i2ǂ1 - i1ǂ1 + 1
+//@   at return #3 assert imp(split[0][0] != '0', forall(k, 0, len(result), result[k] == $itoa(i1ǂ1 + k)))
+//@   at return #3 assert imp(split[0][0] == '0', forall(k, 0, len(result), result[k] == $sprintf1("%0" + $itoa(len(split[0])) + "d", any(i1ǂ1 + k))))
+//@   at return #4 assert e1 == nil && e2 == nil && i1ǂ1 > i2ǂ1 && result1 == nil && len(result) == i1ǂ1 - i2ǂ1 + 1
+//@   at return #4 assert imp(split[1][0] != '0', forall(k, 0, len(result), result[k] == $itoa(i1ǂ1 - k)))
+//@   at return #4 assert imp(split[1][0] == '0', forall(k, 0, len(result), result[k] == $sprintf1("%0" + $itoa(len(split[1])) + "d", any(i1ǂ1 - k))))
+//@   at return #5 assert e1 == nil && e2 == nil && i1ǂ1 == i2ǂ1 && result1 == nil && len(result) == 1 && result[0] == ite(split[1][0] != '0', $itoa(i1ǂ1), $sprintf1("%0" + $itoa(len(split[1])) + "d", any(i1ǂ1)))
+
+// The expansion odometer of writeArrayString: while carrying, every counter to the right of the carry
+// position has been reset to 0, and a group is only finished when the carry has run off the left end -
+// i.e. when all counters have wrapped round to 0 (or there is no expansion block at all). So the
+// enumeration never stops early in the middle of the cartesian product.
+//@ func (*arrayT).writeArrayString [C18]
+//@   check none
+//@   scope functional
+//@   loop nextCounter invariant 0 <= i && i < len(counter) && forall(k, i + 1, len(counter), counter[k] == 0)
+//@   loop 1 step forall(t, 0, len(counter), counter[t] == 0)
